@@ -41,13 +41,13 @@ func c18Opts(flags uint32) Opts {
 	}
 	switch (flags >> 3) & 3 {
 	case 0:
-		o.Switches = map[string]string{"V": "A", "GAME": "RUBY"}
+		o.Switches = map[string]string{"V": "A", "W": "B", "GAME": "RUBY"}
 	case 1:
 		o.Switches = map[string]string{"V": "zzz"}
 	case 2:
 		o.Switches = nil
 	default:
-		o.Switches = map[string]string{"V": "1", "A": "B"}
+		o.Switches = map[string]string{"V": "1", "W": "A", "A": "B"}
 	}
 	switch (flags >> 5) & 3 {
 	case 0:
@@ -173,7 +173,14 @@ func genMutant(t *rapid.T) string {
 	cfg := DefaultFileCfg()
 	cfg.MaxTops = 3
 	cfg.CF.MaxDepth = 3
+	cfg.CF.PS = 7
+	cfg.CF.PSNoDirectContinue = true
 	f := GenFile(t, cfg)
+	if rapid.IntRange(0, 3).Draw(t, "unmutated") == 0 {
+		// a valid program as it is (with statement poryswitches, with and without a '_' case):
+		// whatever normal mode accepts with its switches, lint mode must accept without any
+		return Canon(f)
+	}
 	pr := PrintFile(f)
 	toks := make([]string, len(pr.Toks))
 	for i, tk := range pr.Toks {
@@ -226,7 +233,7 @@ func genMutant(t *rapid.T) string {
 var hostile = []string{"\x00", "\ufffd", "\ufeff", `"`, "`", "\\", "\r", "\n", "\t", "{", "}", "(", ")", "0x", "-", "*", "script", "text T { \"", "format(", "poryswitch(V){", "switch(var(A)){case ", "if(", "moves(", "raw `", "mapscripts M { A [", "const C = ", " ", "\U0001F600", "é"}
 
 func genHostile(t *rapid.T) string {
-	switch rapid.IntRange(0, 5).Draw(t, "hk") {
+	switch rapid.IntRange(0, 6).Draw(t, "hk") {
 	case 0: // deep parentheses in a condition
 		n := rapid.IntRange(1, 300).Draw(t, "depth")
 		cl := rapid.IntRange(0, n).Draw(t, "closed")
@@ -254,6 +261,17 @@ func genHostile(t *rapid.T) string {
 		return sb.String()
 	case 4: // arbitrary unicode
 		return rapid.String().Draw(t, "str")
+	case 5: // small constant graphs (self / mutual / forward references) and uses at every substitution site
+		names := []string{"A", "B", "K", "VAR_RESULT"}
+		var sb strings.Builder
+		n := rapid.IntRange(1, 4).Draw(t, "nconst")
+		for i := 0; i < n; i++ {
+			fmt.Fprintf(&sb, "const %s = %s\n", rapid.SampledFrom(names).Draw(t, "cname"), strings.Join(rapid.SliceOfN(rapid.SampledFrom(append([]string{"1", "+", "X"}, names...)), 1, 3).Draw(t, "cval"), " "))
+		}
+		u := func() string { return rapid.SampledFrom(names).Draw(t, "use") }
+		fmt.Fprintf(&sb, "script S { c(%s, %s) if (var(%s) == %s && flag(%s)) { x } switch (var(%s)) { case %s: y } if (random(%s) == %s) { z } }\n", u(), u(), u(), u(), u(), u(), u(), u(), u())
+		fmt.Fprintf(&sb, "mart M { %s ITEM_X }\nmapscripts MS { T [ %s, %s: L ] }\nconst Z = %s\n", u(), u(), u(), u())
+		return sb.String()
 	default: // hostile fragments glued together
 		parts := rapid.SliceOfN(rapid.SampledFrom(hostile), 1, 12).Draw(t, "frags")
 		return strings.Join(parts, rapid.SampledFrom([]string{"", " ", "A"}).Draw(t, "glue"))
